@@ -30,6 +30,9 @@ func runBounded(bc BoundedCfg, prop, root, tier string, seed int, replayDir stri
 	s := string(out)
 	// the command reports its own coverage as lines "BOUNDED key=value"
 	for _, l := range strings.Split(s, "\n") {
+		if strings.HasPrefix(l, "KNOWN-FINDING") {
+			fmt.Println(l)
+		}
 		if strings.HasPrefix(l, "BOUNDED ") {
 			for _, kv := range strings.Fields(l[8:]) {
 				if i := strings.Index(kv, "="); i > 0 {
